@@ -242,7 +242,7 @@ func VerifC07_ConcurrentFirstReports() {
 // VerifC07_ConcurrentCAS3 (thorough): three racing reporters on a seeded cache.
 //
 //verif:tier thorough
-//verif:opts preempt sched=8 fuel=10 part0=8 part1=2 preemptfn=(*github.com/filecoin-project/go-data-transfer/v2/channels.blockIndexCache).updateIfGreater
+//verif:opts preempt sched=6 fuel=10 part0=8 part1=2 preemptfn=(*github.com/filecoin-project/go-data-transfer/v2/channels.blockIndexCache).updateIfGreater
 func VerifC07_ConcurrentCAS3() {
 	bic := newBlockIndexCache()
 	chid := datatransfer.ChannelID{Initiator: peerID("a"), Responder: peerID("b"), ID: 1}
